@@ -89,6 +89,9 @@ theorem yw_spawn (c : Nat) (t : Task) (h : WFw w) (ht : inRangeB (LL w).1 (LL w)
     · exact Or.inr ht
 end
 
+theorem yw_execSpawn {w : World} (xs : List ExecTask) (h : WFw w) : WFw ({ w with execSpawn := w.execSpawn ++ xs } : World) :=
+  h.tk0_eq (tk_of_cmds rfl) rfl
+
 theorem LL_addSpawn (w : World) (c : Nat) (t : Task) : LL (w.modCmd c (addSpawn t)) = LL w := rfl
 theorem LL_addJoinWaker (w : World) (s : Nat) (wk : Waker) : LL (w.modMeta s (addJoinWaker wk)) = LL w := LL_modMeta w s _
 
@@ -99,21 +102,45 @@ def rangeRes (w' : World) : PollRes → Prop
 theorem rangeRes_pending (w' : World) (b : Block) : rangeRes w' (.pending b) = (inRangeB (LL w').1 (LL w').2 b = true) := rfl
 theorem rangeRes_ready (w' : World) (e : Env) : rangeRes w' (.ready e) = (envOk (LL w').2 e = true) := rfl
 
-def RGood (pn : Waker → Nat → World → Option (NextRes × World)) (f : Nat) : Prop :=
-  ∀ wk p b w r w', pollBlock pn f wk (.cmd p) b w = some (r, w') → WFw w → inRangeB (LL w).1 (LL w).2 b = true →
-    WFw w' ∧ (LL w).1 ≤ (LL w').1 ∧ (LL w).2 ≤ (LL w').2 ∧ rangeRes w' r
+/-- a legacy task whose block is in range -/
+def legacyR (n m : Nat) : ExecTask → Prop
+  | .legacy b => inRangeB n m b = true
+  | .cmd _ => False
+theorem legacyR_legacy (n m : Nat) (b : Block) : legacyR n m (.legacy b) = (inRangeB n m b = true) := rfl
+theorem legacyR_mono (n m n' m' : Nat) (t : ExecTask) (h : legacyR n m t) (h1 : n ≤ n') (h2 : m ≤ m') : legacyR n' m' t := by
+  cases t with
+  | cmd c => exact h
+  | legacy b => exact inRangeB_mono h1 h2 b h
 
-theorem rgood_succ (pn) (hpn : PnW pn) (f : Nat) (ih : RGood pn f) : RGood pn (f + 1) := by
-  intro wk p b w r w' h hw hb
+theorem esg_modCmd (w : World) (c : Nat) (f : CmdSt → CmdSt) : (w.modCmd c f).execSpawn = w.execSpawn := rfl
+theorem esg_sinkEffect (w : World) (s : Sink) (e : Eff) : (w.sinkEffect s e).execSpawn = w.execSpawn := by cases s <;> rfl
+theorem esg_sinkEvent (w : World) (s : Sink) (e : Ev) : (w.sinkEvent s e).execSpawn = w.execSpawn := by cases s <;> rfl
+theorem esg_newMeta (w : World) : w.newMeta.2.execSpawn = w.execSpawn := rfl
+theorem esg_dropCmd (w : World) (c : Nat) : (w.dropCmd c).execSpawn = w.execSpawn := es_of_X (X_World_dropCmd w c)
+theorem esg_hostLoop (pn) (hpx : PnX pn) (f : Nat) (wk : Waker) (me c : Nat) (m : Mapper) (w : World) (d : Bool) (w' : World)
+    (h : hostLoop pn f wk me c m w = some (d, w')) : w'.execSpawn = w.execSpawn := es_of_X (hostLoop_x pn hpx f wk me c m w d w' h)
+
+/-- whatever the poll added to the executor's spawn queue is a legacy task in range -/
+def spawnR (w w' : World) : Prop := ∀ t, t ∈ w'.execSpawn → t ∈ w.execSpawn ∨ legacyR (LL w').1 (LL w').2 t
+
+def RGood (pn : Waker → Nat → World → Option (NextRes × World)) (f : Nat) : Prop :=
+  ∀ wk sink b w r w', pollBlock pn f wk sink b w = some (r, w') → WFw w → inRangeB (LL w).1 (LL w).2 b = true →
+    WFw w' ∧ (LL w).1 ≤ (LL w').1 ∧ (LL w).2 ≤ (LL w').2 ∧ rangeRes w' r ∧ spawnR w w'
+
+theorem rgood_succ (pn) (hpn : PnW pn) (hpx : PnX pn) (f : Nat) (ih : RGood pn f) : RGood pn (f + 1) := by
+  intro wk sink b w r w' h hw hb
   obtain ⟨env, cur, rest⟩ := b
-  have hl := hostLoop_w pn hpn f wk p
+  have hl := hostLoop_w pn hpn f wk
+  have hlx := esg_hostLoop pn hpx f wk
   unfold pollBlock at h
   simp only [addJoinWaker_eq, addSpawn_eq] at h
   unfold RGood at ih
-  grind (gen := 20) (splits := 40) [irB_eq, irP_idle, irP_reqDead, irP_selfwake, irP_host, irP_req, irP_streamWait, irP_streamBody, irP_await,
+  unfold spawnR at ih ⊢
+  grind (gen := 20) (splits := 40) [mem_es_spawn, legacyR_legacy, legacyR_mono, esg_modCmd, esg_sinkEffect, esg_sinkEvent, esg_newMeta, esg_dropCmd,
+    es_modLeaf, es_modMeta, es_newLeaf, es_dropReceiver, es_wake, es_abortCmd, es_dropBlock, irB_eq, irP_idle, irP_reqDead, irP_selfwake, irP_host, irP_req, irP_streamWait, irP_streamBody, irP_await,
     irP_join, irP_select, irB_mono', envOk_mono', envOk_set', envOk_setHandle', envOk_handle',
     yw_sinkEvent, yw_sinkEffect, yw_newLeaf, yw_newMeta, yw_modLeaf, yw_modMeta, yw_dropReceiver, yw_wake, yw_abortCmd,
-    yw_dropBlock, yw_dropCmd, yw_spawn, LL_addSpawn, LL_addJoinWaker,
+    yw_dropBlock, yw_dropCmd, yw_spawn, yw_execSpawn, LL_execSpawn, LL_addSpawn, LL_addJoinWaker,
     LL_modCmd, LL_modLeaf, LL_modMeta, LL_newLeaf, newLeaf_fst, LL_newMeta, newMeta_fst, LL_sinkEffect, LL_sinkEvent,
     LL_dropReceiver, LL_World_wake, LL_abortCmd, LL_World_dropCmd, LL_World_dropBlock, rangeRes_pending, rangeRes_ready]
 
